@@ -75,7 +75,7 @@ class C02(Sim):
     expected_probes = [
         "nan_row_after_boundary_lock_previous", "nan_first_row_after_restart_with_default", "out_of_range_row_lock_range",
         "one_row_segment", "matrix_setter_single_input", "all_nan_segment", "parity_event", "hybrid_engine",
-        "output_variable_in_antecedent", "vector_setter", "cascade_changed_a_row", "configuration_changed_between_segments", "scalar0d_setter", "mixed_family_output_with_disjoint_rules", "shipped_example_engine", "output_matrix_compared",
+        "output_variable_in_antecedent", "vector_setter", "cascade_changed_a_row", "configuration_changed_between_segments", "scalar0d_setter", "mixed_family_output_with_disjoint_rules", "shipped_example_engine", "output_matrix_compared", "input_arrays_refilled_in_place",
     ]
 
     def prepare(self) -> None:
@@ -97,13 +97,21 @@ class C02(Sim):
             r = rng.random()
             if r < 0.74:
                 k = rng.choice([1, 1, 2, 3, rng.randint(1, maxrows), maxrows])
+                prev = ops[-1] if ops and ops[-1]["op"] == "seg" else None
+                if prev and prev["setter"] in ("vars", "inplace") and len(prev["rows"]) > 1 and rng.random() < 0.35:
+                    k = len(prev["rows"])  # same size as the batch before: candidate for an in-place refill
+                    force_inplace = True
+                else:
+                    force_inplace = False
                 if rng.random() < 0.06:
                     rows = [[fenc(float("nan"))] * len(sp["inputs"]) for _ in range(k)]
                 else:
                     rows = [S.draw_row(rng, sp, special) for _ in range(k)]
                     if rng.random() < 0.25:
                         rows[0] = [fenc(float("nan"))] * len(sp["inputs"])
-                setter = rng.choice(["vars", "vars", "matrix", "matrix", "vector", "scalar0d"])
+                setter = rng.choice(["vars", "vars", "matrix", "matrix", "vector", "scalar0d", "inplace", "inplace"])
+                if force_inplace:
+                    setter = "inplace"
                 if setter == "scalar0d":
                     rows = [[rows[0][0]] * len(sp["inputs"])]
                 ops.append({"op": "seg", "rows": rows, "setter": setter})
@@ -161,6 +169,7 @@ class C02(Sim):
         sig = [",".join(classes), ";".join(f"{int(o['lock_previous'])}{int(o['lock_range'])}{o['default'] != 'nan'}" for o in sp["outputs"])]
         after_restart = True
         compared_batches = 0
+        held: list = []
         for i, op in enumerate(trace["ops"]):
             st.hit("ops")
             kind = op["op"]
@@ -224,12 +233,25 @@ class C02(Sim):
                 st.hit("probes.nan_row_after_boundary_lock_previous")
             if after_restart and np.isnan(arr[0]).all() and any(not np.isnan(ov.default_value) for ov in A.output_variables):
                 st.hit("probes.nan_first_row_after_restart_with_default")
+            if setter == "inplace":
+                # the caller keeps the arrays it handed over and refills them in place for the next batch (legal: the
+                # variable holds a reference). Only when the previous segment left k-row arrays of ours in every input
+                # variable and no input clips (clipping stores a new array).
+                ok = (k > 1 and len(held) == n_in and all(iv.value is h and h.shape == (k,) for iv, h in zip(A.input_variables, held))
+                      and not any(iv.lock_range for iv in A.input_variables))
+                if not ok:
+                    setter = "vars"
             ea = eb = None
             eb_row = -1
             try:
-                if setter == "vars":
+                if setter == "inplace":
+                    for c, h in enumerate(held):
+                        h[...] = arr[:, c]
+                    st.hit("probes.input_arrays_refilled_in_place")
+                elif setter == "vars":
+                    held = [arr[:, c].copy() for c in range(n_in)]
                     for c, iv in enumerate(A.input_variables):
-                        iv.value = arr[:, c].copy()
+                        iv.value = held[c]
                 elif setter == "matrix":
                     A.input_values = arr.copy()
                     if n_in == 1:
